@@ -343,7 +343,7 @@ func checkC12(c *Ctx) (int, error) {
 	if c.Tier == "thorough" {
 		maxLen, per = 6, 5
 	}
-	cfg := genCfg(`"flate"`, []int{1, 2}, maxLen, 1, false, []string{"Write", "Flush", "Close", "Reset"}, "")
+	cfg := genCfg(`"flate"`, []int{1, 2}, maxLen, 2, false, []string{"Write", "Flush", "Close", "Reset"}, "")
 	behs, err := c.Behaviours("WriterModel", "GEN_C12.cfg", map[string]string{"GEN_C12.cfg": cfg}, 10*time.Minute)
 	if err != nil {
 		return 0, err
@@ -356,7 +356,7 @@ func checkC12(c *Ctx) (int, error) {
 				r = i
 			}
 		}
-		// exactly one Reset, something (or nothing) before, a history ending in Close after
+		// one or two Resets (also directly after each other), anything before the last one, a history ending in Close after it
 		return r >= 0 && r < len(h)-1 && h[len(h)-1].Op == "C"
 	})
 	if err != nil {
@@ -375,20 +375,22 @@ func checkC12(c *Ctx) (int, error) {
 			cs.FailAt, cs.FailEp = 1+rng.Intn(3), 0
 		}
 		// the data must cover the larger epoch
-		a, b := 0, 0
-		for j, o := range cs.Ops {
+		mx, cur := 0, 0
+		for _, o := range cs.Ops {
+			if o.Op == "R" {
+				cur = 0
+			}
 			if o.Op == "W" {
-				if j < r {
-					a += o.N
-				} else {
-					b += o.N
+				cur += o.N
+				if cur > mx {
+					mx = cur
 				}
 			}
 		}
-		cs.Data.Len = maxInt(a, b)
+		cs.Data.Len = mx
 		c.ev.nontrivial(histString(cs.Ops) + "|" + cs.Tag + fmt.Sprint(cs.FailAt))
 	}
-	c.ev.Rule = fmt.Sprintf("every history of %d calls over {Write(small|large), Flush, Close, Reset} with exactly one Reset that is followed by a history ending in Close (TLC, WriterModel), on %d of %d settings; one third with a destination failure inside h1; the bytes after Reset are compared with a fresh Writer's; distinct by (history, setting, failure)", maxLen, per, len(allWSettings))
+	c.ev.Rule = fmt.Sprintf("every history of %d calls over {Write(small|large), Flush, Close, Reset} with one or two Resets (also back to back) the last of which is followed by a history ending in Close (TLC, WriterModel), on %d of %d settings; one third with a destination failure inside h1; the bytes after Reset are compared with a fresh Writer's; distinct by (history, setting, failure)", maxLen, per, len(allWSettings))
 	c.ev.Exhaustive = true
 	for _, cs := range cases[:minInt(3, len(cases))] {
 		c.ev.sample(map[string]interface{}{"history": histString(cs.Ops), "setting": cs.Tag, "failat": cs.FailAt})
